@@ -9,8 +9,9 @@ META = dict(
   assumptions=['|coordinates| <= 2^40, non-empty rectangle', 'paths of 3 vertices'],
   outside=['ExecuteInternal corner logic, GetIntersection, CheckEdges/TidyEdges, Path1ContainsPath2', 'end-to-end winding-number equality'],
 )
+SEG = {'Clipper2Lib::GetSegmentIntersection(': 'stub_segint'}
 OBLIGATIONS = [
-  O('C08.a-getlocation', 'rect_units.cpp', 'harness_getlocation', bound='all rectangles/points up to 2^40', desc='GetLocation: returns false exactly on the boundary; loc names a region containing the point'),
+] + [O('C08.a-getintersection-closest-loc%d' % l, 'rect_units.cpp', 'harness_getintersection', defs=['LOC0=%d' % l, 'GIL=4'], replace=SEG, unwind=6, backend=['kissat', 'cadical'], timeout=300, tiers='qt' if l in (0, 3) else 't', bound='all rectangles and segments with |coord|<=16 in general position, p strictly in half-plane %d (0=Left,1=Top,2=Right,3=Bottom)' % l, desc='GetIntersection succeeds iff the segment properly crosses the rectangle boundary and reports the entry edge (the crossing closest to p)') for l in range(4)] + [  O('C08.a-getlocation', 'rect_units.cpp', 'harness_getlocation', bound='all rectangles/points up to 2^40', desc='GetLocation: returns false exactly on the boundary; loc names a region containing the point'),
   O('C08.a-getnextlocation', 'rect_units.cpp', 'harness_getnextlocation', replace=ADD, unwind=10, bound='3-vertex path, any start index and start location', desc='skipped vertices stay in the start region, inside vertices are output, the stop vertex lies in the named region (strictly outside when leaving Inside)'),
   O('C08.b-execute-shortcuts', 'rect_units.cpp', 'harness_execute_shortcuts', replace=EXE, unwind=10, bound='one triangle, all coordinates up to 2^40', desc='bounds inside => path returned unchanged; bounds disjoint => nothing; otherwise the clipper proper runs once'),
 ]
